@@ -37,16 +37,16 @@ def run(tier, seed):
         ck.violation("interval algebra lemma fails (Inter / IsEmpty / AcceptedLimit / Includes against their definitions)\n" + r.out[-1500:], [r.out], tag="lemma")
     ck.add_model("IntervalLemmas", r, "K=%d" % kl)
     # 2. design model: every history of construct / copy / assign / setValue / setConstraint / removeConstraint
-    designs = [("plain", 2, [1, 2], [0]), ("precision", 2, [1], [0, 1, 2])]
+    # (quick: two parameters on a one-point pool + one parameter on a two-point pool + precisions; thorough adds
+    #  two parameters on a two-point pool and one on a three-point pool)
+    designs = [("two-k1", 1, [1, 2], [0]), ("one-k2", 2, [1], [0]), ("precision", 2, [1], [0, 1, 2])]
     if not quick:
-        designs.append(("grid3", 3, [1, 2], [0]))
+        designs += [("two-k2", 2, [1, 2], [0]), ("one-k3", 3, [1], [0, 1, 2])]
     for name, k, pids, precs in designs:
         cfg = os.path.join(wd, "design_%s.cfg" % name)
         _design_cfg(cfg, k, pids, precs)
         r = vc.model_check(SPEC, "Params", cfg, coverage=True, timeout=6000, heap="10g")
-        ck.add_model("Params/" + name, r, "K=%d PIds=%s Precs=%s" % (k, pids, precs))
-        if r.invariant:
-            ck.violation("design model Params/%s violates %s" % (name, r.invariant), [r.out[-6000:]], tag="model")
+        pc.add_design(ck, "Params/" + name, r, "K=%d PIds=%s Precs=%s" % (k, pids, precs))
     # 3. implementation traces
     exe = vc.build_driver("drv_params")
     runs = [("alg", ["--mode", "alg", "--k", 3 if quick else 4, "--n", 150 if quick else 3000]),
